@@ -45,6 +45,38 @@ theorem C01_main (c : Codec) (hrt : c.RT) (ps : List Pkt) (hwf : ∀ p ∈ ps, W
   rw [h, hflat, parseAll_encodeAll c hrt ps hwf k]
   simp [holds]
 
+/-- The writer's individual `Write` calls concatenate to the encoding and none is empty. -/
+theorem C01_writeCalls (c : Codec) (p : Pkt) :
+    (writeCalls c p).flatten = encode c p ∧ ∀ ch ∈ writeCalls c p, ch ≠ [] := by
+  unfold writeCalls encode
+  by_cases hh : packet.Type.IsHeartbeat (wireType p)
+  · simp [hh]
+  · by_cases he : (wireBody c p).isEmpty
+    · have : wireBody c p = [] := List.isEmpty_iff.mp he
+      simp [hh, this, be32]
+    · have hne : wireBody c p ≠ [] := fun h => he (List.isEmpty_iff.mpr h)
+      simp [hh, he, be32, hne]
+
+/-- **Message transports** (WebSocket: one message per `Write` call, handed to the
+reader message by message): the round trip holds with the writer's own call
+boundaries as the chunking. -/
+theorem C01_message_transport (c : Codec) (hrt : c.RT) (ps : List Pkt) (hwf : ∀ p ∈ ps, WF c p)
+    (tail : Tail) (k : Nat) :
+    holds ps (readAll c (ps.length + 1 + k) ⟨(ps.map (writeCalls c)).flatten, tail⟩) = true := by
+  apply C01_main c hrt ps hwf _ tail _ _ k
+  · intro ch hch
+    rw [List.mem_flatten] at hch
+    obtain ⟨l, hl, hch⟩ := hch
+    rw [List.mem_map] at hl
+    obtain ⟨p, _, rfl⟩ := hl
+    exact (C01_writeCalls c p).2 ch hch
+  · unfold encodeAll
+    induction ps with
+    | nil => rfl
+    | cons p ps ih =>
+      simp only [List.map_cons, List.flatten_cons, List.flatten_append]
+      rw [(C01_writeCalls c p).1, ih (fun q hq => hwf q (List.mem_cons_of_mem _ hq))]
+
 /-- The `0x80` (encrypted) flag: the body is consumed exactly, then rejected. -/
 theorem C01_encrypted (c : Codec) (t : Nat) (body : Bytes) (h : packet.Type.IsEncrypted t = true) :
     finish c t body = .fail .encrypted := by
